@@ -35,12 +35,35 @@ theorem interned_roundtrip_nested {env : Nat → NTy} {hash : Nat → NVal → N
     (hbound : ∀ tid p, S tid p → hash tid p < 2 ^ 128)
     (t : NTy) (v : NVal) (hwt : wtN env t v = true) (hS : ∀ x ∈ v.handles, S x.1 x.2)
     (I : NInterner) (hI : IOk hash S I) (rest : Bytes) (fuel : Nat) (hfuel : v.need ≤ fuel) :
-    ∃ d I', dec env hash fuel t (encodeTop env hash t v ++ rest) I = .ok (d, rest, I') ∧ d.erase = v ∧
+    ∃ d I', dec true env hash fuel t (encodeTop env hash t v ++ rest) I = .ok (d, rest, I') ∧ d.erase = v ∧
       NInterner.le I I' ∧ IOk hash S I' ∧ Canon hash I' d := by
   obtain ⟨d, I', h1, h2, h3⟩ :=
-    dec_enc_v (env := env) hinj hbound v t [] I [] rest fuel hwt hS hI (fun k hk => by cases hk)
-      (fun y hy => by cases hy) hfuel
-  exact ⟨d, I', h1, h2, h3.le, h3.ok, h3.canon⟩
+    dec_enc_v (env := env) hinj hbound 0 v t [] I [] rest fuel hwt hS (IOkN_zero_iff.2 hI) (Nat.zero_le _)
+      (fun k hk => by cases hk) (fun y hy => by cases hy) hfuel
+  refine ⟨d, I', h1, h2, h3.le, IOkN_zero_iff.1 h3.ok, ?_⟩
+  have := h3.canon
+  rwa [handlesAbove_zero] at this
+
+/-- The same with the hypothesis on the decoder-side interner WEAKENED to what the repaired decoder (/repo F61COMMIT:
+the decode session keeps every handle it produced alive) needs — `IOkW`: every live entry's payload lies in the
+collision-free universe and is filed under its own hash; NO canonicity of the live values is assumed, so a live
+value may hold `Interned::new_duplicating` handles that the interner knows nothing about (finding F61's history).
+Then still: decoding succeeds, consumes exactly, `d.erase = v`, the interner only grows and keeps its integrity;
+and canonicity holds for everything this decode produced: `d.handlesAbove I.length` = every handle of `d`, not
+descending into allocations that already existed before the call (slot `< I.length`) — such an allocation is
+returned as it is, and what a non-canonical live value holds inside cannot be claimed canonical.  (`IOkW` cannot
+be dropped: an entry filed under a hash that is not its payload's is a corrupted interner, C15's `canonical`.) -/
+theorem interned_roundtrip_nested_weak {env : Nat → NTy} {hash : Nat → NVal → Nat} {S : Nat → NVal → Prop}
+    (hinj : ∀ tid p₁ p₂, S tid p₁ → S tid p₂ → hash tid p₁ = hash tid p₂ → p₁ = p₂)
+    (hbound : ∀ tid p, S tid p → hash tid p < 2 ^ 128)
+    (t : NTy) (v : NVal) (hwt : wtN env t v = true) (hS : ∀ x ∈ v.handles, S x.1 x.2)
+    (I : NInterner) (hI : IOkW hash S I) (rest : Bytes) (fuel : Nat) (hfuel : v.need ≤ fuel) :
+    ∃ d I', dec true env hash fuel t (encodeTop env hash t v ++ rest) I = .ok (d, rest, I') ∧ d.erase = v ∧
+      NInterner.le I I' ∧ IOkW hash S I' ∧ CanonH hash I' (d.handlesAbove I.length) := by
+  obtain ⟨d, I', h1, h2, h3⟩ :=
+    dec_enc_v (env := env) hinj hbound I.length v t [] I [] rest fuel hwt hS (IOkN_length_of_IOkW hI) (Nat.le_refl _)
+      (fun k hk => by cases hk) (fun y hy => by cases hy) hfuel
+  exact ⟨d, I', h1, h2, h3.le, IOkW_of_IOkN h3.ok, h3.canon⟩
 
 /-- *"values written back to back are read back in the same sequence"*, with the second value decoded
 against the interner the first one left behind (two top-level calls, two sessions, one interner — the
@@ -52,9 +75,9 @@ theorem back_to_back_nested {env : Nat → NTy} {hash : Nat → NVal → Nat} {S
     (hS₁ : ∀ x ∈ v₁.handles, S x.1 x.2) (hS₂ : ∀ x ∈ v₂.handles, S x.1 x.2)
     (I : NInterner) (hI : IOk hash S I) (rest : Bytes) (fuel : Nat) (hf₁ : v₁.need ≤ fuel) (hf₂ : v₂.need ≤ fuel) :
     ∃ d₁ I₁ d₂ I₂,
-      dec env hash fuel t₁ (encodeTop env hash t₁ v₁ ++ (encodeTop env hash t₂ v₂ ++ rest)) I
+      dec true env hash fuel t₁ (encodeTop env hash t₁ v₁ ++ (encodeTop env hash t₂ v₂ ++ rest)) I
         = .ok (d₁, encodeTop env hash t₂ v₂ ++ rest, I₁) ∧
-      dec env hash fuel t₂ (encodeTop env hash t₂ v₂ ++ rest) I₁ = .ok (d₂, rest, I₂) ∧
+      dec true env hash fuel t₂ (encodeTop env hash t₂ v₂ ++ rest) I₁ = .ok (d₂, rest, I₂) ∧
       d₁.erase = v₁ ∧ d₂.erase = v₂ ∧ Canon hash I₂ d₁ ∧ Canon hash I₂ d₂ := by
   obtain ⟨d₁, I₁, h1, h2, _, h4, h5⟩ := interned_roundtrip_nested hinj hbound t₁ v₁ hw₁ hS₁ I hI
     (encodeTop env hash t₂ v₂ ++ rest) fuel hf₁
@@ -77,7 +100,7 @@ theorem interned_roundtrip_history {env : Nat → NTy} {hash : Nat → NVal → 
     (t : NTy) (v : NVal) (hwt : wtN env t v = true) (hS : ∀ x ∈ v.handles, S x.1 x.2) (hfuel : v.need ≤ fuel)
     (rest : Bytes) :
     ∃ I, aliveInterner env hash fuel alive [] = some I ∧ IOk hash S I ∧
-      ∃ d I', dec env hash fuel t (encodeTop env hash t v ++ rest) I = .ok (d, rest, I') ∧ d.erase = v ∧
+      ∃ d I', dec true env hash fuel t (encodeTop env hash t v ++ rest) I = .ok (d, rest, I') ∧ d.erase = v ∧
         NInterner.le I I' ∧ Canon hash I' d := by
   have key : ∀ (vs : List (NTy × NVal)) (I₀ : NInterner), IOk hash S I₀ →
       (∀ tv ∈ vs, wtN env tv.1 tv.2 = true ∧ (∀ x ∈ tv.2.handles, S x.1 x.2) ∧ tv.2.need ≤ fuel) →
@@ -151,24 +174,24 @@ example : encodeTop exEnv exHash exTy exVal =
 /-- decoding with a fresh interner: allocation identities (slots) of all handles in pre-order.  The leaf
     is slot 0 in all five places (inside A, twice inside B, as root's kid, at top level), A is slot 2 both as
     root's kid and inside the `Expr`, the name is slot 1 twice; exact consumption (3 junk bytes left). -/
-example : (match dec exEnv exHash 41 exTy (encodeTop exEnv exHash exTy exVal ++ [7, 8, 9]) [] with
+example : (match dec true exEnv exHash 41 exTy (encodeTop exEnv exHash exTy exVal ++ [7, 8, 9]) [] with
     | .ok (d, rest, I') => (d.handles.map (fun x => (x.1, x.2.1)), rest, I'.length)
     | .error _ => ([], [], 99)) =
     ([(0, 4), (0, 2), (0, 0), (1, 1), (0, 3), (0, 0), (0, 0), (0, 0), (1, 1), (2, 6), (2, 5), (0, 2), (0, 0), (1, 1), (0, 0)],
       [7, 8, 9], 7) := by decide
 
 /-- one unit of fuel too few is reported as such (never a default) -/
-example : (match dec exEnv exHash 12 exTy (encodeTop exEnv exHash exTy exVal) [] with
+example : (match dec true exEnv exHash 12 exTy (encodeTop exEnv exHash exTy exVal) [] with
     | .error e => e = .outOfFuel | .ok _ => false) = true := by decide
 
 /-- the table is filled AFTER the payload: a reference to a handle whose payload is still being read misses
     (`Cons(<reference to the handle being read>, 5)` — what a hash collision between a value and one of its
     descendants would produce) -/
-example : (match dec exEnv exHash 9 (.handle 2) [0, 2, 1, 21, 0, 5] [] with
+example : (match dec true exEnv exHash 9 (.handle 2) [0, 2, 1, 21, 0, 5] [] with
     | .error e => e = .panic | .ok _ => false) = true := by decide
 
 /-- the hypotheses of `interned_roundtrip_nested` are satisfiable on this DAG -/
-example : ∃ d I', dec exEnv exHash 114 exTy (encodeTop exEnv exHash exTy exVal ++ [7]) [] = .ok (d, [7], I') ∧
+example : ∃ d I', dec true exEnv exHash 114 exTy (encodeTop exEnv exHash exTy exVal ++ [7]) [] = .ok (d, [7], I') ∧
     d.erase = exVal ∧ Canon exHash I' d := by
   have hS : ∀ x ∈ exVal.handles, (fun tid p => (tid, p) ∈ exVal.handles) x.1 x.2 := fun x hx => hx
   obtain ⟨d, I', h1, h2, _, _, h5⟩ := interned_roundtrip_nested (env := exEnv) (hash := exHash)
@@ -192,7 +215,7 @@ example : ∃ d I', dec exEnv exHash 114 exTy (encodeTop exEnv exHash exTy exVal
 
 /-- … and the hypothesis is needed: with a constant hash the second of two different leaves is written as a
     reference and read back as the first -/
-example : (match dec exEnv (fun _ _ => 5) 20 (.tuple [.handle 1, .handle 1])
+example : (match dec true exEnv (fun _ _ => 5) 20 (.tuple [.handle 1, .handle 1])
       (encodeTop exEnv (fun _ _ => 5) (.tuple [.handle 1, .handle 1])
         (.list [.handle 1 (.plain (.bytes [0x61])), .handle 1 (.plain (.bytes [0x62]))])) [] with
     | .ok (d, _, _) => d.handles.map (fun x => (x.2.1, match x.2.2 with | .plain (.bytes b) => b | _ => []))
@@ -201,8 +224,42 @@ example : (match dec exEnv (fun _ _ => 5) 20 (.tuple [.handle 1, .handle 1])
 /-- a history: `exVal` and a lone leaf are alive; decoding `[leaf, A]`-like data then yields their allocations
     (slot 0 = the leaf, slot 2 = A, as in the interner the alive values leave behind) and allocates nothing -/
 example : (match aliveInterner exEnv exHash 41 [(exTy, exVal), (.handle 0, leaf)] [] with
-    | some I => (match dec exEnv exHash 41 (.tuple [.handle 0, .handle 0]) (encodeTop exEnv exHash (.tuple [.handle 0, .handle 0]) (.list [leaf, nA])) I with
+    | some I => (match dec true exEnv exHash 41 (.tuple [.handle 0, .handle 0]) (encodeTop exEnv exHash (.tuple [.handle 0, .handle 0]) (.list [leaf, nA])) I with
         | .ok (d, _, I') => (d.handles.map (fun x => x.2.1), I.length, I'.length) | .error _ => ([], 0, 0))
     | none => ([], 0, 0)) = ([0, 2, 0, 1], 7, 7) := by decide
+
+/-! ### finding F61 (fixed by /repo F61COMMIT): the history, the historical witness, and the repaired decoder -/
+
+/-- the decoder-side interner of F61's history: ONE live value `e = Node { label 2, kids [leaf'] }` (slot 0) whose
+    inner handle `leaf'` was made by `Interned::new_duplicating` — an allocation (number 99) the interner does not know -/
+def f61I : NInterner :=
+  [((0, 2), .list [.plain (.nat 2), .list [.handle 0 99 (.list [.plain (.nat 1), .list [], .tagged 0 (.list [])])], .tagged 0 (.list [])])]
+def f61Ty : NTy := .tuple [.handle 0, .handle 0]
+/-- `v = (e, intern(leaf))`, encoded while alive, dropped before decoding -/
+def f61Val : NVal := .list [.handle 0 (.list [.plain (.nat 2), .list [leaf], none']), leaf]
+
+example : encodeTop exEnv exHash f61Ty f61Val = [0, 2, 1, 0, 1, 0, 0, 0, 1, 1, 0] := by decide
+
+/-- HISTORICAL WITNESS (`keep = false`, the decoder before F61COMMIT): the leaf read inside `e`'s payload is interned
+    (fresh allocation), `intern(e)` returns the live `e` and drops the payload with it, the reference that follows
+    misses: `expect` panics -/
+example : (match dec false exEnv exHash 20 f61Ty (encodeTop exEnv exHash f61Ty f61Val) f61I with
+    | .error e => e = .panic | .ok _ => false) = true := by decide
+
+/-- the repaired decoder (`keep = true`) on the same history: round trip; `e` is the live allocation 0 with its
+    private inner copy 99 inside, the leaf decoded on the way stays alive (slot 1) and the reference resolves to it -/
+example : (match dec true exEnv exHash 20 f61Ty (encodeTop exEnv exHash f61Ty f61Val) f61I with
+    | .ok (d, rest, I') => (d.handles.map (fun x => x.2.1), (d.handlesAbove 1).map (fun x => x.2.1), rest.length, I'.length)
+    | .error _ => ([], [], 9, 9)) = ([0, 99, 1], [0, 1], 0, 2) := by decide
+
+/-- this interner is outside `IOk` (the copy 99 is not canonical) but inside `IOkW`: `interned_roundtrip_nested_weak`
+    applies, `interned_roundtrip_nested` does not; and on interners inside `IOk` the two decoders agree (diamond) -/
+example : ¬ Canon exHash f61I (.handle 0 0 (.list [.plain (.nat 2), .list [.handle 0 99 (.list [.plain (.nat 1), .list [], .tagged 0 (.list [])])], .tagged 0 (.list [])])) := by
+  intro h
+  have := h (0, 99, .list [.plain (.nat 1), .list [], .tagged 0 (.list [])]) (by simp [DVal.handles, DVal.handlesL])
+  simp [f61I, NInterner.find, exHash, DVal.erase, DVal.eraseL] at this
+example : (match dec false exEnv exHash 41 exTy (encodeTop exEnv exHash exTy exVal) [] with
+    | .ok (d, _, I') => (d.handles.map (fun x => x.2.1), I'.length) | .error _ => ([], 0)) =
+    ([4, 2, 0, 1, 3, 0, 0, 0, 1, 6, 5, 2, 0, 1, 0], 7) := by decide
 
 end QbiceVerif.Codec.C12Nested
